@@ -266,3 +266,86 @@ Proof.
   assert (IH' := IH (fun byp q Hq => E byp q (or_intror Hq))).
   destruct (is_or mode); rewrite IH'; reflexivity.
 Qed.
+
+(* ---- one rule shared by all processors: the rule is never written, every decision is history independent ---- *)
+Lemma list_eqb_refl {A : Type} (eq : A -> A -> bool) :
+  (forall x, eq x x = true) -> forall l, list_eqb eq l l = true.
+Proof.
+  intros Hr l. induction l as [|x r IH]; [reflexivity|]. cbn [list_eqb]. rewrite Hr, IH. reflexivity.
+Qed.
+
+Lemma list_eqb_eq {A : Type} (eq : A -> A -> bool) :
+  (forall x y, eq x y = true -> x = y) -> forall a b, list_eqb eq a b = true -> a = b.
+Proof.
+  intros He a. induction a as [|x r IH]; intros [|y q] H; cbn [list_eqb] in H; try discriminate; [reflexivity|].
+  apply andb_prop in H. destruct H as [H1 H2]. rewrite (He _ _ H1), (IH _ H2). reflexivity.
+Qed.
+
+Lemma cond_eqb_refl c : cond_eqb c c = true.
+Proof.
+  unfold cond_eqb. rewrite !(list_eqb_refl bytes_eqb bytes_eqb_refl). cbn [andb].
+  destruct (c_regexp c); [apply bytes_eqb_refl|reflexivity].
+Qed.
+
+Lemma cond_eqb_eq a b : cond_eqb a b = true -> a = b.
+Proof.
+  destruct a as [fa va ra], b as [fb vb rb]. unfold cond_eqb. cbn [c_field c_values c_regexp]. intros H.
+  apply andb_prop in H. destruct H as [H Hr]. apply andb_prop in H. destruct H as [Hf Hv].
+  apply (list_eqb_eq bytes_eqb (fun x y Hxy => proj1 (bytes_eqb_eq x y) Hxy)) in Hf.
+  apply (list_eqb_eq bytes_eqb (fun x y Hxy => proj1 (bytes_eqb_eq x y) Hxy)) in Hv.
+  subst. destruct ra as [x|], rb as [y|]; try discriminate; [|reflexivity].
+  apply bytes_eqb_eq in Hr. subst. reflexivity.
+Qed.
+
+Lemma bool_eqb_refl b : Bool.eqb b b = true.
+Proof. destruct b; reflexivity. Qed.
+
+Section Shared.
+  Variable re_match : bytes -> bytes -> bool.
+
+  (* evaluating a rule any number of times, on any events, leaves the configured rule behind *)
+  Theorem shared_rule_unchanged mode invert rule es :
+    snd (shared_run re_match mode invert rule es) = rule.
+  Proof.
+    induction es as [|e r IH]; [reflexivity|]. cbn [shared_run eval_step].
+    destruct (shared_run re_match mode invert rule r) as [bs rule2]. exact IH.
+  Qed.
+
+  Lemma shared_decisions mode invert rule es :
+    fst (shared_run re_match mode invert rule es) = map (match_spec re_match mode invert rule) es.
+  Proof.
+    induction es as [|e r IH]; [reflexivity|]. cbn [shared_run eval_step map].
+    destruct (shared_run re_match mode invert rule r) as [bs rule2]. cbn [fst] in *.
+    rewrite IH, match_fields_spec. reflexivity.
+  Qed.
+
+  (* history independence: in every sequence of evaluations of one shared rule (any interleaving of any number of
+     processors is such a sequence), the decision for an event is the documented one for (configured rule, event),
+     whatever was evaluated before or after it *)
+  Theorem shared_history_independent mode invert rule pre e post :
+    nth_error (fst (shared_run re_match mode invert rule (pre ++ e :: post))) (length pre)
+    = Some (match_spec re_match mode invert rule e).
+  Proof.
+    rewrite shared_decisions, map_app. cbn [map].
+    rewrite nth_error_app2; rewrite map_length; [|lia]. rewrite Nat.sub_diag. reflexivity.
+  Qed.
+
+  (* the model's run satisfies the predicate the harness' observation is judged by ... *)
+  Theorem shared_run_ok mode invert rule es :
+    shared_ok re_match mode invert rule es (fst (shared_run re_match mode invert rule es))
+              (snd (shared_run re_match mode invert rule es)) = true.
+  Proof.
+    unfold shared_ok. rewrite shared_rule_unchanged, shared_decisions.
+    rewrite (list_eqb_refl cond_eqb cond_eqb_refl), (list_eqb_refl Bool.eqb bool_eqb_refl). reflexivity.
+  Qed.
+
+  (* ... and the predicate means what it says: rule unchanged, every decision the documented one *)
+  Theorem shared_ok_sound mode invert rule es decisions rule_after :
+    shared_ok re_match mode invert rule es decisions rule_after = true ->
+    rule_after = rule /\ decisions = map (match_spec re_match mode invert rule) es.
+  Proof.
+    unfold shared_ok. intros H. apply andb_prop in H. destruct H as [H1 H2]. split.
+    - symmetry. exact (list_eqb_eq cond_eqb cond_eqb_eq _ _ H1).
+    - exact (list_eqb_eq Bool.eqb (fun x y Hxy => proj1 (Bool.eqb_true_iff x y) Hxy) _ _ H2).
+  Qed.
+End Shared.
